@@ -256,6 +256,7 @@ fn parse_internal(input: &[LexToken]) -> ParseResult<'_, Vec<RootDefinition>> {
 
 /// Parse a stream of lex tokens into an abstract syntax tree
 pub fn parse(source: &[LexToken]) -> Result<Module, ParseError> {
+    expressions::reset_template_args_memory();
     match parse_internal(source) {
         Ok((rest, _)) if !rest.is_empty() => Err(ParseError::from_tokens_remaining(rest)),
         Ok((_, hlsl)) => Ok(Module {
